@@ -557,6 +557,102 @@ def run_types(case):
   return types_agree(case[0], ent[0], ent[1], ent[2], struct_params(ent[1]))
 
 
+
+# ------------------------------------------- zero values / items that are not numbers; mixers in mixers
+def gen_composite(run):
+  for zk in ("str", "tuple", "Fraction", "complex"):
+    for prog in ("melody", "chord", "overlap", "late"):
+      yield ("zero-kind", zk, prog)
+  for shape in ("plain-before", "plain-after", "plain-outlives", "two-submixers", "alternate-two-mixers", "submixer-of-submixer"):
+    for keep in (False, True):
+      yield ("nested", shape, keep)
+
+
+def run_composite(case):
+  """(1) the zero value and the items may be anything that adds (strings and tuples concatenate): sample n is the
+  zero value plus the items due at n, in the order their events started; (2) an event may itself be a mixer."""
+  what, a, b = case
+  if what == "zero-kind":
+    mk = {"str": (lambda i, j: "abcdefgh"[i] + str(j)), "tuple": (lambda i, j: (i, j)),
+          "Fraction": (lambda i, j: F(i + 1, j + 2)), "complex": (lambda i, j: complex(i, j + 1))}[a]
+    zero = {"str": "", "tuple": (), "Fraction": F(0), "complex": 0j}[a]
+    plan = {"melody": [(0, 2), (2, 2), (2, 1)], "chord": [(0, 3), (0, 2), (0, 1)], "overlap": [(0, 4), (1, 2), (1, 3)],
+            "late": [(0, 2), (5, 2)]}[b]
+    sm = Streamix(zero=zero)
+    T, evs = 0, []
+    for i, (delta, ln) in enumerate(plan):
+      T += delta
+      items_ = [mk(i, j) for j in range(ln)]
+      evs.append((T, items_))
+      sm.add(delta, list(items_))
+    total = max(t + len(it_) for t, it_ in evs)
+    exp = []
+    for n in range(total):
+      v = zero
+      for t, it_ in evs:
+        if t <= n < t + len(it_):
+          v = v + it_[n - t]
+      exp.append(v)
+    try:
+      got = list(sm)
+    except Exception as exc:
+      return bad("mixer:zero-kind:exception", "a mixer whose zero value and items are %s raised" % a, [repr(v) for v in exp], repr(exc)[:200], True)
+    if got != exp or any(type(g) is not type(e) for g, e in zip(got, exp)):
+      return bad("mixer:zero-kind:value", "sample n is the zero value plus the items due at n (items: %s)" % a,
+                 [repr(v) for v in exp], [repr(v) for v in got], True)
+    return R(None, True, (a, b))
+  shape, keep = a, b
+  N = 9
+  def inner(base):
+    m = Streamix()
+    m.add(0, [base + 1, base + 2, base + 3, base + 4])
+    m.add(1, [base + 10, base + 20])
+    return m, [base + 1, 2 * base + 12, 2 * base + 23, base + 4]
+  try:
+    if shape == "alternate-two-mixers":
+      m1, e1 = inner(0)
+      m2, e2 = inner(500)
+      got1, got2 = [], []
+      i1, i2 = iter(m1), iter(m2)
+      for _ in range(4):
+        got1.append(next(i1)); got2.append(next(i2))
+      if got1 != e1 or got2 != e2:
+        return bad("mixer:two-mixers", "two mixers consumed alternately are independent", [e1, e2], [got1, got2], True)
+      return R(None, True, (shape, keep))
+    outer = Streamix(keep=keep)
+    parts = []          # (start, values)
+    if shape == "plain-before":
+      outer.add(0, [100, 200]); parts.append((0, [100, 200]))
+      m, e = inner(0); outer.add(0, m); parts.append((0, e))
+      outer.add(1, [1000]); parts.append((1, [1000]))
+    elif shape == "plain-after":
+      m, e = inner(0); outer.add(0, m); parts.append((0, e))
+      outer.add(1, [100, 200]); parts.append((1, [100, 200]))
+    elif shape == "plain-outlives":
+      outer.add(0, [100, 200, 300, 400, 500, 600]); parts.append((0, [100, 200, 300, 400, 500, 600]))
+      m, e = inner(0); outer.add(1, m); parts.append((1, e))
+    elif shape == "two-submixers":
+      outer.add(0, [7]); parts.append((0, [7]))
+      m, e = inner(0); outer.add(0, m); parts.append((0, e))
+      m2, e2 = inner(500); outer.add(2, m2); parts.append((2, e2))
+    else:
+      m, e = inner(0)
+      mid = Streamix(); mid.add(0, [50]); mid.add(0, m)
+      emid = [e[0] + 50] + e[1:]
+      outer.add(0, [100, 200]); parts.append((0, [100, 200]))
+      outer.add(1, mid); parts.append((1, emid))
+    total = max(t + len(v) for t, v in parts)
+    exp = [sum(v[n - t] for t, v in parts if t <= n < t + len(v)) for n in range(total)]
+    got = outer.take(total + 3) if keep else list(outer)
+    if keep:
+      exp = exp + [0.0] * 3
+  except Exception as exc:
+    return bad("mixer:nested:exception", "a mixer holding a mixer as one of its events (%s) raised" % shape, None, repr(exc)[:200], True)
+  if got != exp:
+    return bad("mixer:nested:value", "a mixer as an event of another mixer (%s): sample n is the sum of the items due at n" % shape,
+               exp, got, True)
+  return R(None, True, (shape, keep))
+
 KINDS = OrderedDict([
   ("bfs", Kind(None, run_bfs, chunk=16,
                rule="one case = one merged mixer state (its shortest history); every operation applied from it")),
@@ -567,6 +663,7 @@ KINDS = OrderedDict([
                  rule="many events with the same non-dyadic delta; non-trivial: all")),
   ("control", Kind(gen_control, run_control, chunk=2000,
                    rule="all words over {assign a, assign b, read}; non-trivial: >=1 assignment and >=1 read")),
+  ("composite", Kind(gen_composite, run_composite, chunk=4, rule="zero values / items that are strings, tuples, Fractions, complex x 4 programs; mixers as events of mixers x 6 shapes x keep")),
   ("call-routes", Kind(gen_routes, run_routes, chunk=1,
                        rule="each function with every documented parameter set: all positional / all keyword / every split must agree")),
   ("param-types", Kind(gen_types, run_types, chunk=1,
